@@ -29,7 +29,7 @@ fn reduce(v: &serde_json::Value) -> Vec<T> {
 fn enc(t: &T, l: &mut Line) { l.u(t.0).z(t.1.len()); for c in &t.1 { enc(c, l); } }
 
 /// canonical text of everything a dump says, without offsets; `skip` = streams owned by a failed step
-fn summary(img: &[u8], skip_names: bool, skip_cpu: bool) -> Result<String, String> {
+fn summary(img: &[u8], skip_names: bool, skip_cpu: bool, skip_ctx: bool) -> Result<String, String> {
     use std::fmt::Write as _;
     let d = md::Dump::parse(img)?;
     let mut s = String::new();
@@ -38,7 +38,7 @@ fn summary(img: &[u8], skip_names: bool, skip_cpu: bool) -> Result<String, Strin
     for t in &types { if skip_names && *t == md::THREAD_NAMES { continue; } writeln!(s, "stream {t:x}").unwrap(); }
     for t in d.threads(img)? {
         let ctx = img.get(t.ctx.rva as usize..t.ctx.rva as usize + t.ctx.size as usize).ok_or("ctx outside image")?;
-        writeln!(s, "thread {} stack {:x}+{:x} ctx {:x}", t.tid, t.stack.start, t.stack.loc.size, fnv(&format!("{ctx:?}"))).unwrap();
+        writeln!(s, "thread {} stack {:x}+{:x} ctx {:x}", t.tid, t.stack.start, t.stack.loc.size, if skip_ctx { 0 } else { fnv(&format!("{ctx:?}")) }).unwrap();
     }
     for m in d.memory_list(img)? { let b = img.get(m.loc.rva as usize..m.loc.rva as usize + m.loc.size as usize).ok_or("memory outside image")?; writeln!(s, "mem {:x}+{:x} {:x}", m.start, m.loc.size, fnv(&format!("{b:?}"))).unwrap(); }
     for m in d.modules(img)? { let cv = img.get(m.cv.rva as usize..m.cv.rva as usize + m.cv.size as usize).ok_or("cv outside image")?; writeln!(s, "module {:x}+{:x} {:?} cv {:?} ver {:?}", m.base, m.size, m.name, cv, m.version).unwrap(); }
@@ -153,7 +153,9 @@ pub fn run(a: &Args) {
             out.case(line.s(), r.s(), mask != 0);
             // all other streams intact
             let skip_names = mask >> 2 & 1 == 1; let skip_cpu = mask >> 4 & 1 == 1;
-            let (sa, sb) = (summary(&base_img, skip_names, skip_cpu), summary(&img, skip_names, skip_cpu));
+            // (with 130 threads the target is not reliably back in the same register state between two dumps when the machine is loaded: the
+            // register contents - C04's business - are left out of the comparison on that shape; ids, stacks and everything else stay in)
+            let (sa, sb) = (summary(&base_img, skip_names, skip_cpu, crowd), summary(&img, skip_names, skip_cpu, crowd));
             let mut l = Line::new("const"); l.u(mask as u64).u(1);
             let mut r = Line::bare();
             match (sa, sb) {
